@@ -114,6 +114,15 @@ def make_pool(seed, n):
     out.append(good_ % 1 + 'taskreport bad "what?" {\n  formats csv\n  columns id, start\n}\n')
     out.append(good_ % 2 + 'taskreport esc "../escape" {\n  formats json\n  columns id, start\n}\n')
     out.append(good_ % 3 + 'taskreport fine "fine" {\n  formats json, csv\n  columns id, start, end\n}\n')
+    # settings that change how OTHER values are read (working day length, efforts in days and weeks): whatever one project
+    # declares must not stick to the interpreter (seeded change C12-f kept the hours per 'd' in a class-level table)
+    for _k in range(3):
+        GROUPS[len(out) + _k] = -777          # the three texts below are siblings: histories that touch one prefer the others next
+    out.append('project d6 "D" 2025-01-06 +4w {\n  timezone "Etc/UTC"\n  dailyworkinghours 6\n  yearlyworkingdays 200\n}\nresource r "r" {}\n'
+               'task t "t" {\n  effort 2d\n  allocate r\n}\ntask u "u" {\n  effort 1w\n  allocate r\n  depends t\n}\n')
+    out.append('project d7 "D" 2025-01-06 {\n  dailyworkinghours 7\n}\nresource r "r" {}\ntask t "t" {\n  effort 2d\n  allocate r\n}\n')      # rejected (no duration), after the header was read
+    out.append('project dd "D" 2025-01-06 +6w {\n  timezone "Etc/UTC"\n}\nresource r "r" {}\n'
+               'task t "t" {\n  effort 2d\n  allocate r\n}\ntask u "u" {\n  effort 1w\n  allocate r\n  depends t\n}\ntask v "v" {\n  effort 3h\n  allocate r\n  depends u { gapduration 1d }\n}\n')
     # ties between several candidates (seeded change C12-c: alternatives iterated as a set of id strings): the primary is
     # away, several idle alternatives with identical calendars tie; whatever breaks the tie must not be the hash seed
     for k, names in enumerate((["zeta", "alpha", "kappa", "beta", "omega", "delta"], ["r9", "r10", "r2", "r33", "r4", "r51"])):
